@@ -3,7 +3,9 @@ package main
 import (
 	"encoding/hex"
 	"fmt"
+	"os"
 	"path"
+	"path/filepath"
 	"regexp"
 	"sort"
 	"strings"
@@ -242,4 +244,28 @@ func (w *world) partialTarUnderFinalName(es []entry) []string {
 	}
 	sort.Strings(bad)
 	return bad
+}
+
+// ctlWithoutSigOnSharedData: the evidence for finding C19-F3 in a cache directory: for some signed
+// package the origin serves, <ctlhash>.ctl.tar.gz is advertised, <ctlhash>.sig.tar.gz is not, and
+// <datahash>.dat.tar.gz is advertised by a link into a DIFFERENT expand-apk directory than the
+// control section's (the data section was cached by an earlier download of another revision).
+func (w *world) ctlWithoutSigOnSharedData(cache string) bool {
+	base := filepath.Join(cache, w.cacheRepoDir())
+	for _, r := range w.revs {
+		for _, b := range r.repo.Built[arch] {
+			if b.Sig == nil {
+				continue
+			}
+			dir := filepath.Join(base, pdirOf(b))
+			ch, dhx := hex.EncodeToString(b.ControlSHA1), hex.EncodeToString(b.DataSHA256)
+			ct, err1 := os.Readlink(filepath.Join(dir, ch+".ctl.tar.gz"))
+			_, err2 := os.Lstat(filepath.Join(dir, ch+".sig.tar.gz"))
+			dt, err3 := os.Readlink(filepath.Join(dir, dhx+".dat.tar.gz"))
+			if err1 == nil && err2 != nil && err3 == nil && filepath.Dir(ct) != filepath.Dir(dt) {
+				return true
+			}
+		}
+	}
+	return false
 }
